@@ -9,7 +9,13 @@ ID = 'C03'
 NAMESPACE = 'VL.C03'
 LEAN_MODULES = ['VotelibProofs.Props.C03']
 GEN_MODULES = ['Quota']
-REQUIRED = []
+REQUIRED = ['gregory_subtract_exact', 'gregory_split_equal', 'gregory_meets_spec', 'hare_meets_spec',
+            'hare_draws_in_contract', 'hare_draw_outside_contract',
+            'conservation', 'conservation_runCounts', 'conservation_gregory', 'conservation_hare', 'conservation_step',
+            'trace_states_reached', 'weights_nonneg', 'topCont_some_iff', 'topCont_none_iff',
+            'rests_with_top_continuing', 'exhausted_only_when_none_remains',
+            'elected_only_by_quota_or_last_standing', 'retained_count_formula', 'eliminates_exactly_lowest',
+            'exhausted_pile_never_contender', 'removed_after_election_are_elected']
 REQUIRED_COUNTERS = ['surplus_transfer', 'exhausted_pile_gt_candidate', 'shared_first_rank', 'zero_first_pref_candidate',
                      'eliminate_step_-2', 'mandatory_quota', 'multi_seat_candidate', 'hare_draw', 'shortcut',
                      'elimination', 'refusal', 'fraction_weights', 'stv_next', 'stv_nth', 'distributor']
@@ -27,6 +33,7 @@ NOT_VERIFIED = ['random module: Hare draws are recorded from distribute_n_random
                 'dict equality `new_allocation == allocation` is modelled as "nothing elected and nothing eliminated"']
 EXHAUSTIVE = {'thorough': False}
 _CACHE = {}
+UNPROVED = ['shared_first_rank_divides_equally (allocation level; the split function itself is proved exact and equal: gregory_split_equal)']
 
 
 # ------------------------------------------------------------------------------------------------
@@ -661,5 +668,18 @@ def describe(case):
 
 TECHNIQUE = ('Lean 4 proof of the per-count invariants of the STV count (unbounded number of candidates, ballots and counts) + '
              'count-by-count differential correspondence of the model with votelib')
-LEVEL_TEXT = ''
-LEVEL_NOTE = ''
+LEVEL_TEXT = ('initial_allocation, next_count (quota election with over-award correction, subtraction, retain-the-best elimination, '
+              'transfer with ranked_next and equal-rank splitting, elect-all-remaining shortcut), nth_count and both transferers are '
+              'modelled line for line in Lean. Proved for all profiles, seat numbers, configurations, previous gains / maximum seats and '
+              'any number of counts (induction over counts): exact conservation (held + empty ballots + quota x seats filled by quota = '
+              'votes cast) for Gregory and for Hare under the draw contract, no negative weight, every paper without shared ranks rests '
+              'with its highest-ranked continuing candidate or is exhausted only if none remains, election only by k>=1 quotas or by the '
+              'last-standing shortcut, elimination of exactly #continuing - max(#continuing+step,1) strictly lowest continuing candidates '
+              'independent of the exhausted pile. The model is tied to /repo by a count-by-count differential correspondence (every '
+              'intermediate allocation, elected and eliminated sets) plus a direct oracle of the five invariants on every count of the '
+              'implementation.')
+LEVEL_NOTE = ('Trusted: Lean kernel + propext/Classical.choice/Quot.sound; translate.py for the quota functions; the correspondence '
+              'harness (bounded by its generator: <= 6 candidates, <= 10 ballot types); the random module (Hare draws are recorded and '
+              'replayed, the DrawOK contract is checked on both sides); frozenset iteration order and the order of papers in a pile. '
+              'Not proved: the equal division of a shared first rank at the level of the whole initial allocation (proved for the split '
+              'function itself).')
